@@ -23,7 +23,10 @@
  *               context) | O genuine with a reserved flag bit set in the OSCORE option
  *        A token that occurred earlier in the same case re-delivers the very same datagram (a
  *        replay on the wire).
- *        -> per message  <A|R|D|C|E|?code>,<last_seq>,<window>,<initial>
+ *        A token with a leading '2' comes from a second client (sender id 03); the server has
+ *        two recipient contexts (ids 02 and 03).
+ *        -> per message  <A|R|D|C|E|N|?code>,<last_seq>,<window>,<initial>/<the same three
+ *           fields of the second recipient context>
  *           A handler ran; R 4.01 unprotected; D 4.00; C protected reply, handler did not run;
  *           N 4.02, or 4.01 "Security context not found";
  *           E nothing (or an empty ACK) sent
@@ -110,7 +113,7 @@ static coap_oscore_conf_t *make_conf(const char *secret, const char *sid, const 
 static coap_context_t *sctx;
 static coap_endpoint_t *sep;
 static coap_session_t *ssess;
-static oscore_recipient_ctx_t *rcp;
+static oscore_recipient_ctx_t *rcp, *rcp2;   /* recipient ids 02 and 03 */
 static int handler_calls;
 
 static void hnd_get(coap_resource_t *r, coap_session_t *s, const coap_pdu_t *req,
@@ -123,14 +126,19 @@ static void hnd_get(coap_resource_t *r, coap_session_t *s, const coap_pdu_t *req
 static int server_up(const char *wcfg, int b12, int with_net) {
   char extra[128];
   coap_oscore_conf_t *conf;
-  snprintf(extra, sizeof(extra), "replay_window,integer,%s\nrfc8613_b_1_2,bool,%s\n",
-           wcfg, b12 ? "true" : "false");
+  snprintf(extra, sizeof(extra), "recipient_id,hex,\"03\"\nreplay_window,integer,%s\n"
+           "rfc8613_b_1_2,bool,%s\n", wcfg, b12 ? "true" : "false");
   sctx = coap_new_context(NULL);
   if (!sctx) return 0;
   conf = make_conf(SECRET_A, "01", "02", extra, NULL, NULL, 0);
   if (!conf || !coap_context_oscore_server(sctx, conf)) return 0;
   if (!sctx->p_osc_ctx || !sctx->p_osc_ctx->recipient_chain) return 0;
-  rcp = sctx->p_osc_ctx->recipient_chain;
+  rcp = rcp2 = NULL;
+  for (oscore_recipient_ctx_t *r = sctx->p_osc_ctx->recipient_chain; r; r = r->next_recipient) {
+    if (r->recipient_id->length == 1 && r->recipient_id->s[0] == 0x02) rcp = r;
+    if (r->recipient_id->length == 1 && r->recipient_id->s[0] == 0x03) rcp2 = r;
+  }
+  if (!rcp || !rcp2) return 0;
   handler_calls = 0;
   ssess = NULL;
   sep = NULL;
@@ -181,6 +189,7 @@ static int save_cb(uint64_t v, void *param) {
   return 1;
 }
 
+static const char *client_sid = "02";
 static int client_up(client_t *c, const char *secret, const char *extra,
                      coap_oscore_save_seq_num_t cb, uint64_t start) {
   coap_address_t srv;
@@ -189,7 +198,7 @@ static int client_up(client_t *c, const char *secret, const char *extra,
   if (!c->ctx) return 0;
   /* needed for the automatic retransmission with Echo (Appendix B.1.2, RFC 9175) */
   coap_context_set_block_mode(c->ctx, COAP_BLOCK_USE_LIBCOAP);
-  conf = make_conf(secret, "02", "01", extra, cb, NULL, start);
+  conf = make_conf(secret, client_sid, "01", extra, cb, NULL, start);
   if (!conf) return 0;
   loop_addr(&srv, 5683);
   c->sess = coap_new_client_session_oscore(c->ctx, NULL, &srv, COAP_PROTO_UDP, conf);
@@ -319,23 +328,31 @@ static uint8_t msg_buf[MAXMSG][160];
 static size_t msg_len[MAXMSG];
 
 static void cmd_rpd(void) {
-  client_t good = {0}, bad = {0};
-  int b12, con;
+  client_t good = {0}, bad = {0}, second = {0};
+  int b12, con, ok;
   if (vntok < 5) { printf("BAD-CASE\n"); return; }
   b12 = atoi(vtok[3]);
   con = atoi(vtok[4]);
-  if (!server_up(vtok[2], b12, 1) || !client_up(&good, SECRET_A, "", NULL, 0) ||
-      !client_up(&bad, SECRET_B, "", NULL, 0)) {
+  ok = server_up(vtok[2], b12, 1) && client_up(&good, SECRET_A, "", NULL, 0) &&
+       client_up(&bad, SECRET_B, "", NULL, 0);
+  client_sid = "03";
+  ok = ok && client_up(&second, SECRET_A, "", NULL, 0);
+  client_sid = "02";
+  if (!ok) {
     printf("SETUP-FAILED\n");
     goto done;
   }
   for (int i = 5; i < vntok; i++) {
-    char kind = vtok[i][0];
-    uint64_t seq = strtoull(vtok[i] + 1, NULL, 16);
+    /* a leading '2' = the message comes from the second client (sender id 03) */
+    int who = vtok[i][0] == '2';
+    const char *mt = vtok[i] + who;
+    oscore_recipient_ctx_t *rc = who ? rcp2 : rcp;
+    char kind = mt[0];
+    uint64_t seq = strtoull(mt + 1, NULL, 16);
     uint8_t dg[512], echo[8];
     size_t n = 0, el = 0;
     const uint8_t *ep = NULL;
-    client_t *c = (kind == 'F') ? &bad : &good;
+    client_t *c = (kind == 'F') ? &bad : (who ? &second : &good);
     uint64_t gen_seq = seq;
     char verdict[16];
     int before, prev = -1;
@@ -347,8 +364,8 @@ static void cmd_rpd(void) {
       memcpy(dg, msg_buf[prev], n);
       goto deliver;
     }
-    if (kind == 'e') { memcpy(echo, rcp->echo_value, 8); ep = echo; el = 8; }
-    if (kind == 'x') { memcpy(echo, rcp->echo_value, 8); echo[0] ^= 0x5a; ep = echo; el = 8; }
+    if (kind == 'e') { memcpy(echo, rc->echo_value, 8); ep = echo; el = 8; }
+    if (kind == 'x') { memcpy(echo, rc->echo_value, 8); echo[0] ^= 0x5a; ep = echo; el = 8; }
     if (kind == 'P') gen_seq = (seq >= OSCORE_SEQ_MAX - 2) ? seq - 2 : (seq ^ 1);
     client_sender(c)->seq = gen_seq;
     n = client_protect(c, con, (unsigned)(i * 7 + 1), ep, el, dg, sizeof(dg));
@@ -392,14 +409,16 @@ deliver:
     coap_lock_unlock(sctx);
     classify(verdict, sizeof(verdict), before);
     if (i > 5) putchar(' ');
-    printf("%s,%" PRIx64 ",%" PRIx64 ",%d", verdict, rcp->last_seq, rcp->sliding_window,
-           rcp->initial_state);
+    printf("%s,%" PRIx64 ",%" PRIx64 ",%d/%" PRIx64 ",%" PRIx64 ",%d", verdict, rcp->last_seq,
+           rcp->sliding_window, rcp->initial_state, rcp2->last_seq, rcp2->sliding_window,
+           rcp2->initial_state);
   }
   if (vntok == 5) printf("-");
   putchar('\n');
 done:
   client_down(&good);
   client_down(&bad);
+  client_down(&second);
   server_down();
 }
 
